@@ -230,7 +230,12 @@ def cmd_gen(a):
 def run_check(prop, wt, base, seed="0"):
     env = dict(os.environ, VV_REPO=wt, VERIF_SEED=seed, VV_EVIDENCE_DIR=os.path.join(base, "evidence"))
     t0 = time.time()
-    p = sh([os.path.join(HERE, "check"), prop, "quick"], env=env, cwd=HERE)
+    try:
+        p = subprocess.run([os.path.join(HERE, "check"), prop, "quick"], env=env, cwd=HERE, capture_output=True, text=True, timeout=900, start_new_session=True)
+    except subprocess.TimeoutExpired:
+        # a mutant that never terminates: stop this check's workers (they run from HERE/.work/<prop>-...) and say so
+        subprocess.run("pkill -f 'vv.worker --prop %s '; pkill -f 'vv.runner %s quick'" % (prop, prop), shell=True)
+        return {"exit": "hang", "keys": [], "wall_s": round(time.time() - t0)}
     keys = re.findall(r"^VIOLATION property=\S+ replay=\S+\s+key=(\S+) occurrences=(\d+)", p.stdout, flags=re.M)
     return {"exit": p.returncode, "keys": [k for k, _ in keys][:4], "wall_s": round(time.time() - t0)}
 
@@ -315,10 +320,14 @@ def cmd_run(a):
                     if r["exit"] == 1:
                         caught = p
                         break
+                    if r["exit"] == "hang":
+                        break
                 if caught:
                     rec["verdict"] = "caught"
                     rec["caught_by"] = caught
                     rec["caught_by_own"] = caught == own
+                elif any(v["exit"] == "hang" for v in rec["checks"].values()):
+                    rec["verdict"] = "hang"
                 else:
                     rec["verdict"] = "survived-checks"
                     if a.suite:
